@@ -144,6 +144,7 @@ ev_recv(int c, int i, int blocking)
 		CHECK(KDONE(i) && KRESULT(i) == NNG_ETIMEDOUT, "C15: non-blocking receive with nothing buffered fails at once");
 	} else {
 		CHECK(!KDONE(i), "blocking receive waits for a response");
+		KWAIT_POST(i, c);
 		CHECK(uaio_at(i).a_expire <= deadline[c], "the receive's timeout is clamped to the survey deadline for every user timeout");
 		CHECK(uaio_at(i).a_expire > env_now, "the receive cannot time out before any time has passed");
 		WITNESS("receive waits");
